@@ -33,7 +33,7 @@ CONFIG = {
 
 def run(ctx):
     n = ctx.pick(96, 900)
-    budget = ctx.pick(60, 900)
+    budget = ctx.pick(60, 420)
     ctx.budget = budget
     for ci in ctx.my_share(n):
         if ctx.elapsed() > budget:
